@@ -86,7 +86,22 @@ def exchange(rec, k, header_t, body, table):
     s = rec.new_http_recorder_session()
     if table is not None: s._url_table = table
     req = Request('http://example.com/p%d' % k); req.address = ('127.0.0.1', 80); req.prepare_for_send()
-    s.begin_request(req); s.request_data(req.to_bytes()); s.end_request(req)
+    if k % 2 == 0:
+        s.begin_request(req); s.request_data(req.to_bytes()); s.end_request(req)
+    else:
+        # the request goes out through the REAL Stream.write_request (what it puts on the wire is what the write listener archives), with the rarely used
+        # ignore-length option on for every other one: the archived block and the payload offset used for the digest must still be about the same bytes
+        from wpull.protocol.http.stream import Stream
+        class _W:
+            def closed(self): return False
+            def write(self, data, drain=True):
+                if False: yield
+        st = Stream(_W(), ignore_length=(k % 4 == 1), keep_alive=True)
+        s.begin_request(req)
+        st.data_event_dispatcher.add_write_listener(s.request_data)
+        shim.run(st.write_request(req))
+        st.data_event_dispatcher.remove_write_listener(s.request_data)
+        s.end_request(req)
     wire = header_t % len(body)
     resp = Response(); resp.parse(wire); resp.request = req
     s.response_data(wire)                 # the header block is reported to listeners while read_response runs ...
@@ -125,7 +140,7 @@ def run_case(cfg, rnd):
                                           extra_fields=[('operator', 'x'), ('note', 'a b')], temp_dir=tmp)
             rec = R.WARCRecorder(os.path.join(tmp, 'out'), params=params)
             import logging; logging.getLogger('c05').info('a log line for the log record')
-            for k in range(3):
+            for k in range(4):
                 body = bytes(rnd.getrandbits(8) for _ in range(rnd.choice([0, 7, 2500])))
                 exchange(rec, k if not cfg['revisit'] else 0, HEADERS[(k + run) % len(HEADERS)], body if not cfg['revisit'] else b'same body', table)
             # concurrent sessions (the crawler runs several): every record must still point at the warcinfo record of the file it ends up in
